@@ -411,15 +411,19 @@ func (ctrler *GovCtrler) applyProposals(height int64) ([]abytes.HexBytes, xerror
 					newGovParams := &ctrlertypes.GovParams{}
 
 					//
-					// hotfix
+					// hotfix: only for a stored option that does not parse as it is
+					// (an option is validated in its stored form; it must be applied in that form)
 					strOpt := string(prop.MajorOption.Option())
-					if strings.HasSuffix(strOpt, `""}`) {
+					err := json.Unmarshal([]byte(strOpt), newGovParams)
+					if err != nil && strings.HasSuffix(strOpt, `""}`) {
 						strOpt = strings.ReplaceAll(strOpt, `""}`, `"}`)
+						newGovParams = &ctrlertypes.GovParams{}
+						err = json.Unmarshal([]byte(strOpt), newGovParams)
 					}
 					//
 					//
 
-					if err := json.Unmarshal([]byte(strOpt), newGovParams); err != nil {
+					if err != nil {
 						ctrler.logger.Error("Apply proposal", "error", err, "option", string(prop.MajorOption.Option()))
 						return xerrors.From(err)
 					}
